@@ -16,7 +16,7 @@ CROSS = {
     "C01-9": ["C09"], "C04-9": ["C05"], "C06-9": ["C04"], "C08-9": ["C07"], "C08-10": ["C04"],
     "C08-11": ["C18", "C13"], "C02-11": ["C20"],
     "C13-13": ["C10"], "C08-12": ["C07", "C08:thorough"],
-    "C05-15": ["C07"], "C13-15": ["C10"],
+    "C05-15": ["C07"], "C13-15": ["C10"], "C02-15": ["C20"],
 }
 
 
